@@ -9,7 +9,7 @@ from pulser.pulse import Pulse
 from pulser.channels.dmm import DMM
 
 VERIF = os.path.dirname(os.path.dirname(os.path.abspath(__file__)))
-PROP_GROUP = {"C06": ["C06"], "C12": ["C12"], "C18": ["C18"], "C16": ["C16"], "C03": ["C03"], "C10": ["C10"], "C02": ["C02"], "C01": ["C01"], "C09": ["C09"], "C07": ["C07"], "C13": ["C13"], "C15": ["C15"]}
+PROP_GROUP = {"C19": ["C19"], "C08": ["C08"], "C06": ["C06"], "C12": ["C12"], "C18": ["C18"], "C16": ["C16"], "C03": ["C03"], "C10": ["C10"], "C02": ["C02"], "C01": ["C01"], "C09": ["C09"], "C07": ["C07"], "C13": ["C13"], "C15": ["C15"]}
 
 
 def load_known(prop):
